@@ -66,7 +66,11 @@ func (x *Exec) doCall(fr *frame, in *Instr, ops []lval) lval {
 	}
 	if f != nil && !f.IsDecl && x.Cfg.CheckCallABI && in.FnTy != nil {
 		if msg := abiMismatch(in, f); msg != "" {
-			x.ub("call-abi."+name, fmt.Sprintf("call of @%s with a different signature than its definition: %s", name, msg), smt.True)
+			id := "call-abi." + name
+			if strings.HasPrefix(msg, "REGS:") {
+				id, msg = "call-abi.regs-exhausted", msg[5:]
+			}
+			x.ub(id, fmt.Sprintf("call of @%s with a different signature than its definition: %s", name, msg), smt.True)
 			x.M.EndPath("ub")
 		}
 	}
@@ -324,6 +328,19 @@ func abiMismatch(in *Instr, f *Func) string {
 		fa = append(fa, strings.TrimSpace(leaves(e)+" "+m))
 	}
 	if a, b := strings.Join(ca, "; "), strings.Join(fa, "; "); a != b {
+		// one recognisable class: the definition takes a register-sized struct
+		// (<= 16 bytes) in memory - which the C ABI does only when the argument
+		// registers are used up - while the call passes it as scalars
+		for i, e := range ft.Elems {
+			m, _ := split(attr(f.Attrs, i+1))
+			if e.Kind == TPtr && strings.HasPrefix(m, "byval(size=") {
+				var sz, al int
+				fmt.Sscanf(m, "byval(size=%d,align=%d)", &sz, &al)
+				if sz <= 16 && !strings.Contains(strings.Join(ca, "; "), "byval") {
+					return "REGS:" + fmt.Sprintf("arguments are (%s) at the call, parameters are (%s): the struct no longer fits the remaining argument registers and must be passed in memory as a whole", a, b)
+				}
+			}
+		}
 		return fmt.Sprintf("arguments are (%s) at the call, parameters are (%s)", a, b)
 	}
 	for i := range ft.Elems {
